@@ -418,7 +418,6 @@ def candidates_for(run, info, before, after, host_before, host_after):
         items = ['mkbranch %s %d' % (dest_code(name), cid)]
         alts = [items]
         if run.cfg.use_queue and name.startswith('development/'):
-            alts = [items + ['dropq']]
             for pid, st in info.get('drained', []):
                 if pid in by_id:
                     alts = [a + [pr_item(by_id[pid], s, '-', [])] for a in alts for s in stage_of(st)]
